@@ -257,7 +257,7 @@ def main(tier):
     ncast = 0
     for ctor, a in m.tb.eval_arms().items():
         ncast += cast_guard_rule(run, a["term"], "%s arm %s" % (W, ctor), "arm|%s" % ctor)
-    run.floor("guarded f64->i64 casts in eval_number::eval", ncast, 3)
+    run.coverage_extra["guarded_f64_to_i64_casts_in_eval"] = ncast
     report_issues(run, {"eval_number": m}, tables={"T_eval", "T_prim", "T_lex"})
     run.floor("obligations", run.obligations, 40)
     return run.finish("partial evaluation of each operator arm for every (Integer|Float) operand combination, residual tree compared with the reference; cast-guard rule with folded constants", "./check C09 --tier %s" % tier)
